@@ -33,7 +33,7 @@ type RunResult struct {
 	Stats      map[string]int64 `json:"stats,omitempty"`
 	Sample     any              `json:"sample,omitempty"`
 	Violation  *Violation       `json:"violation,omitempty"`
-	Known      []Violation      `json:"known,omitempty"`        // violations matching known findings (reported, not failing)
+	Known      []Violation      `json:"known,omitempty"`         // violations matching known findings (reported, not failing)
 	HarnessErr string           `json:"harness_error,omitempty"` // exit 2 material, never a violation
 	Tape       []Decision       `json:"-"`
 	LogLines   []string         `json:"-"`
